@@ -305,6 +305,15 @@ func runRIS(c risCase, id string, st *seqStats, viol func(string, map[string]str
 				!await(s.recv, "client never called Recv on its new ObserveRIB stream") {
 				return
 			}
+			// the client is in its next session: a DropAllBySrc token still here belongs to the previous one (its end was
+			// seen by the goroutine poll first)
+			for stale := true; stale; {
+				select {
+				case <-s.dropped:
+				default:
+					stale = false
+				}
+			}
 			s.session++
 			st.byOp["ris-reconnect"]++
 		default: // the source goes away
